@@ -16,6 +16,12 @@
 (*                 stage point lies before the last point -> `removed` and out *)
 (*                 of recs                                                     *)
 (*   SetLastPoint  Ballotbox.SetLastPoint (advance without a clean cycle)      *)
+(*   Tick(id)      the ticker of the box (Ballotbox.start -> countHoldeds ->   *)
+(*                 voterecords.countHolded): a record whose count was *held*   *)
+(*                 back (INIT stage, draw while expels are not yet agreed;     *)
+(*                 voterecords.countAfter) is counted once the hold has        *)
+(*                 expired - without the count lock, without moving the last   *)
+(*                 point and without a clean cycle                             *)
 (*   Read          a voteproof is read from Ballotbox.Voteproof()              *)
 (* Two levels. What a count may emit is stated abstractly (Sound, from the    *)
 (* statement of C04: own stage point, distinct suffrage nodes, accepted        *)
@@ -25,6 +31,10 @@
 (* countWithExpels do; ImplEmitsSound compares the two. Clean is the          *)
 (* transcription of Ballotbox.clean (removal key computed from the *record*,  *)
 (* prefix CleanSC); CleanReleases compares it with the abstract release.      *)
+(* Tick is stated abstractly (TickGuard = "sound": only for a stage point     *)
+(* the box is still voting on) and transcribed ("impl": the filter of          *)
+(* unfinishedVoterecords plus the check voterecords.count makes itself;        *)
+(* "coarse": the filter of the caller alone); EmitNew compares them.           *)
 (* The properties are written from the statements of C04/C05.                 *)
 (*                                                                           *)
 (* Binding B: BallotboxTrace.tla validates executions recorded from a real    *)
@@ -48,7 +58,11 @@ CONSTANTS
   StoreSC,   \* key prefix under which suffrage-confirm records are stored ("sf-")
   CleanSC,   \* key prefix clean() computes for them ("sf-" by design; the pinned tree used "sign-")
   CountRule, \* "sound": a count emits any sound candidate; "impl": what countFromVoted does
-  EagerCount \* TRUE: a pending count runs before the next Vote (a sequential caller that lets the box come to rest)
+  EagerCount,\* TRUE: a pending count runs before the next Vote (a sequential caller that lets the box come to rest)
+  Holds,     \* TRUE: a count may hold a record back (voterecords.countAfter) for the ticker
+  MaxTick,   \* bound on Tick steps that emit
+  TickGuard  \* "sound": the ticker counts a held record only while the box votes on its stage point;
+             \* "impl": what countHoldeds / countHolded / count check; "coarse": what countHoldeds checks itself
 
 (* the suffrage, its owner and the threshold are state (constant in this module:   *)
 (* Init takes them from Node0/Local0/T100; the trace module sets them per history)  *)
@@ -177,11 +191,30 @@ ImplCandidates(p, isc, V) ==
   IN UNION {IF t(X).res = "MAJORITY" THEN {VP(p, isc, "MAJORITY", k, S(X), X) : k \in t(X).maj} ELSE plain : X \in first}
      \cup (IF first = {} THEN plain ELSE {})
 
+(* the hold of countFromVoted: an INIT record whose votes carry expels no entry  *)
+(* of which is decided with a majority ("expels not yet"), and whose plain tally *)
+(* is a draw, is not finished at once: voterecords.countAfter is set and the     *)
+(* draw is emitted by a later count or by the ticker once the hold has expired   *)
+ImplHoldable(p, isc, V) ==
+  LET n == Cardinality(Node)
+      XS == {v.ex : v \in {w \in V : w.ex # {} /\ Local \notin w.ex}}
+      S(X) == {v \in V : v.node \notin X}
+      big(X) == Cardinality(X) > n - Req(n, 670)
+      q(X) == IF big(X) THEN n - Cardinality(X) ELSE n
+      rq(X) == IF big(X) THEN q(X) ELSE Req(n, T10)
+      t(X) == Tally(q(X), rq(X), S(X))
+      decided(X) == Cardinality(S(X)) >= Min2(rq(X), q(X)) /\ t(X).res # "NOT YET"
+      first == {X \in XS : decided(X) /\ \A Y \in XS : Cardinality(Y) > Cardinality(X) => ~decided(Y)}
+  IN /\ Holds /\ p.s = INIT /\ ~isc /\ V # {}
+     /\ XS # {}
+     /\ first = {} \/ \E X \in first : t(X).res # "MAJORITY"
+     /\ Tally(n, Req(n, T10), V).res = "DRAW"
+
 (* -------------------------------------------------------------------- state *)
 VARIABLES
   last,      \* last point
   recs,      \* key -> record object id          (Ballotbox.vrs)
-  robj,      \* id -> [sp, isc, votes, fin]      the record objects' fields
+  robj,      \* id -> [sp, isc, votes, fin, held] the record objects' fields (held: countAfter is set)
   removed,   \* set of ids                       (Ballotbox.removed)
   pool,      \* id -> how often it is in the recycle pool
   puts,      \* id -> how often it has been handed back to the pool
@@ -189,10 +222,10 @@ VARIABLES
   mat,       \* key -> accepted ballots (history of Vote results; ghost)
   chan,      \* emitted, unread voteproofs
   cleaning,  \* the count lock is held: a count has emitted and clean() is about to run
-  nvotes, nset,
+  nvotes, nset, nticks,
   step       \* output only
-vars == <<Node, Local, T10, last, recs, robj, removed, pool, puts, gen, mat, chan, cleaning, nvotes, nset, step>>
-view == <<last, recs, robj, removed, pool, puts, gen, mat, chan, cleaning, nvotes, nset>>
+vars == <<Node, Local, T10, last, recs, robj, removed, pool, puts, gen, mat, chan, cleaning, nvotes, nset, nticks, step>>
+view == <<last, recs, robj, removed, pool, puts, gen, mat, chan, cleaning, nvotes, nset, nticks>>
 
 J(x) == IF EmitStep THEN ToJson(x) ELSE ""
 Get(f, k) == IF k \in DOMAIN f THEN f[k] ELSE 0
@@ -216,7 +249,7 @@ Init ==
   /\ recs = <<>> /\ robj = <<>> /\ removed = {}
   /\ pool = <<>> /\ puts = <<>> /\ gen = <<>>
   /\ mat = <<>>
-  /\ chan = <<>> /\ cleaning = FALSE /\ nvotes = 0 /\ nset = 0
+  /\ chan = <<>> /\ cleaning = FALSE /\ nvotes = 0 /\ nset = 0 /\ nticks = 0
   /\ step = ""
 
 (* checkBallot + isNewBallot of Ballotbox.Vote/vote *)
@@ -245,7 +278,8 @@ VoteEffect(b, evpex, id, voted) ==
   ELSE IF k \notin DOMAIN recs
   THEN /\ voted = TRUE
        /\ recs' = (k :> id) @@ recs
-       /\ robj' = (id :> [sp |-> SPOf(b), isc |-> b.sc, votes |-> {VoteOf(b)}, fin |-> FALSE]) @@ robj
+       /\ robj' = (id :> [sp |-> SPOf(b), isc |-> b.sc, votes |-> {VoteOf(b)}, fin |-> FALSE,
+                          held |-> IF id \in DOMAIN robj THEN robj[id].held ELSE FALSE]) @@ robj
        /\ gen' = Inc(gen, id)
        /\ pool' = Dec(pool, id)
        /\ mat' = (k :> {VoteOf(b)}) @@ mat
@@ -259,9 +293,12 @@ VoteEffect(b, evpex, id, voted) ==
 
 Candidates(o) == IF CountRule = "impl" THEN ImplCandidates(o.sp, o.isc, o.votes)
                  ELSE SoundCandidates(o.sp, o.isc, o.votes)
+Holdable(o) == ImplHoldable(o.sp, o.isc, o.votes)
+(* a held record is at rest: the next count holds it again until the hold expires *)
 CountReady(id) ==
   LET o == robj[id] IN
-  o.sp # ZeroSP /\ Before(last, o.sp, o.isc) /\ ~o.fin /\ o.votes # {} /\ Candidates(o) # {}
+  /\ o.sp # ZeroSP /\ Before(last, o.sp, o.isc) /\ ~o.fin /\ o.votes # {} /\ Candidates(o) # {}
+  /\ ~(Holdable(o) /\ o.held)
 Vote(b) ==
   /\ nvotes < MaxVotes
   /\ EagerCount => ~cleaning /\ \A id \in Range(recs) : ~CountReady(id)
@@ -270,7 +307,7 @@ Vote(b) ==
        /\ VoteEffect(b, {}, id, voted)
        /\ step' = J([a |-> "Vote", node |-> b.node, h |-> b.h, r |-> b.r, s |-> b.s, sc |-> b.sc,
                           f |-> b.f, ex |-> b.ex, voted |-> voted])
-  /\ UNCHANGED <<last, removed, puts, chan, cleaning, nset, Node, Local, T10>>
+  /\ UNCHANGED <<last, removed, puts, chan, cleaning, nset, nticks, Node, Local, T10>>
 
 (* SetLastPointFromVoteproof *)
 NewLast(vp) == [h |-> vp.h, r |-> vp.r, s |-> vp.s, maj |-> vp.res = "MAJORITY", sc |-> vp.sc]
@@ -284,15 +321,43 @@ Count(id) ==
   /\ Len(chan) < MaxChan
   /\ LET o == robj[id] IN
      /\ o.sp # ZeroSP /\ Before(last, o.sp, o.isc) /\ ~o.fin /\ o.votes # {}
+     /\ \/ /\ CountRule = "impl" => (~Holdable(o) \/ o.held)     \* the first count of a holdable record holds it
+           /\ \E vp \in Candidates(o) :
+                /\ robj' = [robj EXCEPT ![id].fin = TRUE, ![id].held = FALSE]
+                /\ IF IsNewVPForRecord(o.isc, last, SPOf(vp), vp.res = "MAJORITY", vp.sc)
+                   THEN /\ last' = Advance(last, NewLast(vp))
+                        /\ chan' = Append(chan, vp)
+                        /\ cleaning' = TRUE
+                   ELSE UNCHANGED <<last, chan, cleaning>>
+        \/ /\ Holdable(o) /\ ~o.held                              \* hold: countAfter is set, nothing is emitted
+           /\ robj' = [robj EXCEPT ![id].held = TRUE]
+           /\ UNCHANGED <<last, chan, cleaning>>
+     /\ step' = J([a |-> "Count", h |-> o.sp.h, r |-> o.sp.r, s |-> o.sp.s, sc |-> o.isc])
+  /\ UNCHANGED <<recs, removed, pool, puts, gen, mat, nvotes, nset, nticks, Node, Local, T10>>
+
+(* countHoldeds / countHolded of the held record object id, the hold having    *)
+(* expired. What the statement allows: the record is counted like any other,   *)
+(* but only while the box is voting on its stage point.                        *)
+TickFilter(o) ==      \* unfinishedVoterecords: not finished, not at or behind the last stage point, no removed twin
+  /\ ~o.fin
+  /\ IsZeroLP(last) \/ SPCmp(o.sp, SPOf(last)) > 0
+  /\ \A j \in removed : robj[j].sp # o.sp
+TickAdmits(o) ==
+  CASE TickGuard = "sound"  -> Before(last, o.sp, o.isc)
+    [] TickGuard = "impl"   -> TickFilter(o) /\ Before(last, o.sp, o.isc)
+    [] TickGuard = "coarse" -> TickFilter(o)
+Tick(id) ==
+  /\ nticks < MaxTick /\ nticks' = nticks + 1
+  /\ id \in Range(recs)
+  /\ Len(chan) < MaxChan
+  /\ LET o == robj[id] IN
+     /\ o.held /\ o.sp # ZeroSP /\ ~o.fin /\ o.votes # {}
+     /\ TickAdmits(o)
      /\ \E vp \in Candidates(o) :
-          /\ robj' = [robj EXCEPT ![id].fin = TRUE]
-          /\ IF IsNewVPForRecord(o.isc, last, SPOf(vp), vp.res = "MAJORITY", vp.sc)
-             THEN /\ last' = Advance(last, NewLast(vp))
-                  /\ chan' = Append(chan, vp)
-                  /\ cleaning' = TRUE
-             ELSE UNCHANGED <<last, chan, cleaning>>
-          /\ step' = J([a |-> "Count", h |-> o.sp.h, r |-> o.sp.r, s |-> o.sp.s, sc |-> o.isc])
-  /\ UNCHANGED <<recs, removed, pool, puts, gen, mat, nvotes, nset, Node, Local, T10>>
+          /\ robj' = [robj EXCEPT ![id].fin = TRUE, ![id].held = FALSE]
+          /\ chan' = Append(chan, vp)
+     /\ step' = J([a |-> "Tick", h |-> o.sp.h, r |-> o.sp.r, s |-> o.sp.s, sc |-> o.isc])
+  /\ UNCHANGED <<last, recs, removed, pool, puts, gen, mat, cleaning, nvotes, nset, Node, Local, T10>>
 
 (* what the statement of C05 asks of a clean cycle: every record whose stage   *)
 (* point the box has moved past leaves recs                                    *)
@@ -312,7 +377,7 @@ Clean ==
         /\ recs' = Restrict(recs, DOMAIN recs \ gone)
         /\ mat' = Restrict(mat, DOMAIN mat \ ReleasedKeys(recs, last))
   /\ step' = J([a |-> "Clean"])
-  /\ UNCHANGED <<last, gen, chan, nvotes, nset, Node, Local, T10>>
+  /\ UNCHANGED <<last, gen, chan, nvotes, nset, nticks, Node, Local, T10>>
 
 LPs == [h : Heights, r : Rounds, s : {INIT, ACCEPT}, maj : BOOLEAN, sc : {FALSE}]
 SetLastPoint(p) ==
@@ -320,17 +385,18 @@ SetLastPoint(p) ==
   /\ Before(last, SPOf(p), p.sc)
   /\ last' = p
   /\ step' = J([a |-> "SetLast", h |-> p.h, r |-> p.r, s |-> p.s, maj |-> p.maj, sc |-> p.sc])
-  /\ UNCHANGED <<recs, robj, removed, pool, puts, gen, mat, chan, cleaning, nvotes, Node, Local, T10>>
+  /\ UNCHANGED <<recs, robj, removed, pool, puts, gen, mat, chan, cleaning, nvotes, nticks, Node, Local, T10>>
 
 Read ==
   /\ chan # <<>>
   /\ chan' = Tail(chan)
   /\ step' = ""
-  /\ UNCHANGED <<last, recs, robj, removed, pool, puts, gen, mat, cleaning, nvotes, nset, Node, Local, T10>>
+  /\ UNCHANGED <<last, recs, robj, removed, pool, puts, gen, mat, cleaning, nvotes, nset, nticks, Node, Local, T10>>
 
 Next ==
   \/ \E b \in Ballots : Vote(b)
   \/ \E id \in 1..MaxId : Count(id)
+  \/ \E id \in 1..MaxId : Tick(id)
   \/ Clean
   \/ \E p \in LPs : SetLastPoint(p)
   \/ Read
@@ -397,6 +463,13 @@ EmitSound ==
            IN /\ SPOf(vp) = robj[i].sp
               /\ k \in DOMAIN mat
               /\ Sound(vp, mat[k])]_vars
+(* C04: ... and is for a stage point the box is voting on: one it would still  *)
+(* accept a ballot for (new with respect to its last point) at that moment      *)
+VotingOn(l, p, isc) == Before(l, p, isc)
+EmitNew ==
+  [][\A i \in DOMAIN robj :
+        (i \in DOMAIN robj' /\ ~robj[i].fin /\ robj'[i].fin /\ Len(chan') > Len(chan)) =>
+           VotingOn(last, robj[i].sp, robj[i].isc)]_vars
 (* the implementation-level count emits nothing the statement does not allow   *)
 ImplEmitsSound ==
   \A k \in DOMAIN recs :
@@ -415,4 +488,9 @@ ImplExpelsMatchMajority ==
 
 (* reachability witnesses (negations are checked to fail in development)       *)
 NoSCRelease == [][~(cleaning /\ ~cleaning' /\ \E k \in ReleasedKeys(recs, last) : KeyIsSC(k))]_vars
+NoHold == \A i \in DOMAIN robj : ~robj[i].held
+NoTickEmit == [][nticks' = nticks]_vars
+(* a held record whose stage point the box has stopped voting on although it lies behind no later stage point *)
+NoClosedHeld == \A k \in DOMAIN recs : LET o == robj[recs[k]] IN
+                  ~(o.held /\ ~o.fin /\ TickFilter(o) /\ ~Before(last, o.sp, o.isc))
 =============================================================================
